@@ -132,7 +132,7 @@ def effects(fa, rename=None, keep_calls=True, drop_guards=()):
         # a guard is one term: the condition, or its normalised negation - so that
         # `if not c: A else: B` and `if c: B else: A` give the same guard sets
         gs = frozenset(((r(c) if pol else T.not_(r(c))), True) for (c, pol) in e.cguards
-                       if not any(T.contains(c, d) for d in drop_guards))
+                       if not any((d(c) if callable(d) else T.contains(c, d)) for d in drop_guards))
         out.append((p, gs, e))
     return out
 
